@@ -25,11 +25,12 @@ def gen(args):
         y1d = p == 1 and rng.random() < 0.6
         a = int(rng.integers(1, 9))
         Xn = rng.integers(-6, 7, size=(3, m))
+        route14 = ["default", "default", "ridge", "ridgeS"][int(rng.integers(4))]     # also clearly regularised regressors
         fits, chains, bad = [], [], False
         for space in ("feature", "sample"):
             chain = []
             for k in range(1, min(n, m) + 1):
-                r = P.fit_record(Xi, Yi, a, k, space, "full", "default", y1d=y1d, Xn=Xn)
+                r = P.fit_record(Xi, Yi, a, k, space, "full", route14, y1d=y1d, Xn=Xn)
                 if r["raised"]:
                     bad = True
                     fits.append(r)
